@@ -81,7 +81,7 @@ Section Facts.
     - destruct old as [ls|a s n|ls|ls]; simpl.
       + rewrite existsb_pos. reflexivity.
       + rewrite existsb_pos. reflexivity.
-      + unfold arr_eq. rewrite existsb_map_id. rewrite existsb_pos. reflexivity.
+      + rewrite existsb_pos. reflexivity.
       + rewrite (Hpd ls eq_refl p Hp). reflexivity.
     - intros q Hq. pose proof (locate_meets_spec pd_get_loc old Hok p) as S. rewrite Hq in S. exact S.
   Qed.
